@@ -543,6 +543,7 @@ type FuncSpec struct {
 	IsExt    bool
 	Pure     bool
 	Params   []SParam // for ext/iface specs: parameter names
+	Sig      []string // names of receiver and parameters when the contract was written (contract names survive a renaming)
 	Results  []string
 	File     string
 	Pkg      string // rel pkg of the contract file
@@ -615,7 +616,7 @@ func NewSpecs() *Specs {
 	return &Specs{Funcs: map[string]*FuncSpec{}, SpecFns: map[string]*SpecFn{}, Preds: map[string]*Pred{}, Lemmas: map[string]*Lemma{}}
 }
 
-var clauseKeywords = map[string]bool{"spec": true, "pred": true, "ghost": true, "lemma": true, "func": true, "iface": true,
+var clauseKeywords = map[string]bool{"spec": true, "pred": true, "ghost": true, "lemma": true, "func": true, "sig": true, "iface": true,
 	"extern": true, "requires": true, "ensures": true, "modifies": true, "loop": true, "at": true, "observe": true, "opaque": true,
 	"row": true, "exit": true, "entry": true, "props": true, "inline": true, "trusted": true, "table": true, "fact": true, "pure": true,
 	"params": true, "results": true, "opt": true, "just": true, "proof": true}
@@ -1173,6 +1174,15 @@ func (sp *Specs) LoadFile(path, pkgRel string) error {
 			}
 			for _, r := range strings.Split(rest, ",") {
 				cur.Results = append(cur.Results, strings.TrimSpace(r))
+			}
+		case "sig":
+			if cur == nil {
+				return fail(ln, fmt.Errorf("sig outside func"))
+			}
+			for _, r := range strings.Split(rest, ",") {
+				if r = strings.TrimSpace(r); r != "" {
+					cur.Sig = append(cur.Sig, r)
+				}
 			}
 		case "inline":
 			cur.Inline = true
